@@ -26,6 +26,7 @@ func checkC01(c *Check) {
 	c.checkOwnership("C01.7 fsm-table-owned-by-manager")
 	c.rendezvousChannels("C01.1 approval-rendezvous", "transitionCh")
 	c.peerManagerContracts("C01.3 manager-effects")
+	c.readerHandoffRule("C01.6 reader-joined-every-session")
 	c.serverContracts("C01.8 shutdown-protocol")
 	c.peerStopDisablesBoth("C01.8 stop-delivers-onclose")
 	c.serveShutdown("C01.8 stop-delivers-onclose")
